@@ -22,6 +22,9 @@ CLAIMED = {
  'C06': ('other', 'real grid kernels executed on z3 reals + NLP-level implications (grid rows => declared partition facts) decided by z3 over all values of the time variables',
          'Bounded symbolic checking. (a) the real GeometricGrid.normalized(N) is run on a solver real growth factor: start 0, end 1, strict monotonicity, constant ratio = g (local) / last = g*first (global, g**(1/(N-1)) stubbed by r with r^(N-1)=g), for ALL g>=1, N<=8. (b) for every enumerated (grid class/options, N, M, method, horizon kind): hypotheses = the time-grid rows of the real NLP, conclusions = tc[0]=t0, tc[N]=t0+T, tc[k]=t0+n_k*T, strict monotonicity for T>0, M equal sub-steps, sampled t/DT/DT_control agree, min<=dt<=max; each conclusion proven by unsat of hypotheses & not(conclusion); a sat answer is a time-variable assignment that is replayed.',
          'CasADi graph + Function.expand; z3; reals for floats; Density grids outside (numeric root finding).', '3/C06'),
+ 'C11': (TV, 'relational translation validation: free-time NLP with the horizon bound to c vs the real fixed-time NLP, row multisets and objective proven equal by z3',
+         'For every enumerated model/method/grid and {T, t0, both} free: the real free-time transcription with the horizon variable(s) bound to rational c (at translation time, so all other variables stay universally quantified) has the same complete row multiset and objective as the real transcription of the OCP declared with the numbers; the only extra row is T>=0; value(T|t0) are plain decision variables; their starting values equal the guesses; starting points agree on shared variables (ground).',
+         'Variables of the two transcriptions correspond by creation order; rational tables/partitions only (symbolic-T agreement with the reference is C01/C02/C04).', '3/C11'),
 }
 NA = {p: 'check not built yet in this round (see DESIGN.md section 3 for the plan)' for p in
       ['C02','C03','C04','C05','C06','C07','C08','C09','C10','C11','C12','C13','C14','C15','C16','C17','C18','C19']}
